@@ -310,6 +310,23 @@ func (g *gen) lexer() {
 		add(`%s: /[0-9]+/`, num)
 	}
 	g.classes = append(g.classes, num)
+	if g.p(3) {
+		// one token produced by two rules (with the same or with different actions)
+		b := g.n.ident(0)
+		add(`%s: /0b[01]+/`, b)
+		switch {
+		case code && g.p(2):
+			add(`%s: /0o[0-7]+/ { _ = l.Text() }`, b)
+			g.f("lexer-token-from-two-rules-with-code")
+		default:
+			add(`%s: /0o[0-7]+/`, b)
+			g.f("lexer-token-from-two-rules")
+		}
+		g.classes = append(g.classes, b)
+		if noBT {
+			add(`invalid_token: /0[bo]/`)
+		}
+	}
 	if g.p(2) {
 		s := g.n.ident(0)
 		if code && g.p(2) {
@@ -449,6 +466,15 @@ func (g *gen) lexer() {
 	if code && g.p(3) {
 		g.tmplOnce("onAfterLexer", "func lexerHelper(s string) string { return \"strconv\".Itoa(len(s)) }")
 		g.f("template-import-in-user-code")
+	}
+	if g.p(6) {
+		// a lexer without any (space) rule: white space and comments are ordinary tokens
+		for i, l := range g.lex {
+			g.lex[i] = strings.Replace(l, " (space)", "", 1)
+		}
+		g.spaceInj = nil
+		delete(g.feat, "lexer-space")
+		g.f("lexer-without-space-rules")
 	}
 	g.allTerms = append(append(append([]string{}, g.kws...), g.puncts...), g.classes...)
 }
@@ -847,6 +873,7 @@ func (g *gen) parserSection() {
 	}
 	usedLA := false
 	itemDefUsed := map[string]bool{}
+	precUsed := map[string]bool{}
 	for i := 0; i < nitems; i++ {
 		kw := g.termNotIn(itemFirst)
 		itemFirst[kw] = true
@@ -914,6 +941,38 @@ func (g *gen) parserSection() {
 		if arrow {
 			alt += " -> " + g.newType() + g.nodeFlags()
 			g.f("rule-arrow")
+		}
+		alts = append(alts, alt)
+	}
+	// empty productions that carry a rule precedence: written directly (%empty %prec T)
+	// and as the expansion of a rule whose parts are all optional
+	for k := 0; k < 2; k++ {
+		if !g.p(2) {
+			continue
+		}
+		kw := g.termNotIn(itemFirst)
+		itemFirst[kw] = true
+		var avoid map[string]bool
+		if expr != nil {
+			avoid = expr.forbid
+		}
+		pt := g.termNotIn(avoid, precUsed)
+		precUsed[pt] = true
+		precDecl = append(precDecl, fmt.Sprintf("%%%s %s;", []string{"left", "right", "nonassoc"}[r.Intn(3)], pt))
+		name := g.n.ident(0)
+		t1 := g.termNotIn(nil)
+		t2 := g.termNotIn(set1(t1))
+		d := g.termNotIn(set1(t1), set1(t2))
+		if k == 0 {
+			def("%s :\n    %%empty %%prec %s\n  | %s %s\n;", name, pt, t1, t2)
+			g.f("empty-rule-with-prec")
+		} else {
+			def("%s :\n    %s? %s? %%prec %s\n;", name, t1, t2, pt)
+			g.f("all-optional-rule-with-prec")
+		}
+		alt := fmt.Sprintf("%s %s %s", kw, name, d)
+		if itemCat != "" || g.p(3) {
+			alt += " -> " + g.newType()
 		}
 		alts = append(alts, alt)
 	}
